@@ -94,6 +94,10 @@ func enumerate(thorough bool, f func(Case) bool) {
 			if p[0] >= 0 && (p[0] > 0 || p[1] > 0) && !f(Case{Shape: d.sh, FailF: p[0], FailJ: p[1], Mode: d.mode, Directives: d.dirs, FailKind: 1}) {
 				return
 			}
+			// the same directory written with Windows line endings
+			if !f(Case{Shape: d.sh, FailF: p[0], FailJ: p[1], Mode: d.mode, Directives: d.dirs, CRLF: true}) {
+				return
+			}
 		}
 	}
 	// directories with checkpoint files: a fresh database starts at the last checkpoint; a failure inside it (or after it),
@@ -117,6 +121,9 @@ func enumerate(thorough bool, f func(Case) bool) {
 			}
 			for _, p := range pos {
 				if !f(Case{Shape: cc.sh, FailF: p[0], FailJ: p[1], Mode: mode, Ckpt: cc.ck}) {
+					return
+				}
+				if mode == "none" && !f(Case{Shape: cc.sh, FailF: p[0], FailJ: p[1], Mode: mode, Ckpt: cc.ck, CRLF: true}) {
 					return
 				}
 			}
@@ -151,6 +158,7 @@ func genCase(t *rapid.T) Case {
 	}
 	c.Count = rapid.SampledFrom([]int{0, 0, 1, 2}).Draw(t, "count")
 	c.DryRun = rapid.IntRange(0, 4).Draw(t, "dry") == 0
+	c.CRLF = rapid.IntRange(0, 3).Draw(t, "crlf") == 0
 	if c.FailF >= 0 && c.FailJ+1 < c.Shape[c.FailF] && c.Count == 0 && !c.DryRun && rapid.IntRange(0, 2).Draw(t, "second") == 0 {
 		c.Fail2J = rapid.IntRange(c.FailJ+1, c.Shape[c.FailF]-1).Draw(t, "fj2")
 	}
@@ -177,10 +185,13 @@ func TestCheck(t *testing.T) {
 			if len(c.Directives) > 0 {
 				cls += "/directives"
 			}
+			if c.CRLF {
+				cls += "/crlf"
+			}
 		}
 		col.Class(cls)
 		if out.Fired || c.DryRun || c.Schema {
-			col.NonTrivial(fmt.Sprintf("%v|%d.%d|%s|%v|%d|%v|%v.%d|%d|%v|%d", c.Shape, c.FailF, c.FailJ, c.Mode, c.Directives, c.Count, c.DryRun, c.Schema, c.Variant, c.FailKind, c.Ckpt, c.Fail2J))
+			col.NonTrivial(fmt.Sprintf("%v|%d.%d|%s|%v|%d|%v|%v.%d|%d|%v|%d", c.Shape, c.FailF, c.FailJ, c.Mode, c.Directives, c.Count, c.DryRun, c.Schema, c.Variant, c.FailKind, c.Ckpt, c.Fail2J) + fmt.Sprint(c.CRLF))
 		}
 		col.Sample(cls, c)
 		return err
